@@ -271,6 +271,13 @@ func drivers(tier string, race bool) []driver {
 		v, _ := b.GetValue(3)
 		return expect("ClearValues", fmt.Sprint(ok, v, b.GetCardinality()), "false 9 2")
 	})
+	add("BitSliceIndexing.BSI ClearValues(own existence bitmap)", b2, func() (string, string) {
+		b := mk32()
+		b.ClearValues(b.GetExistenceBitmap()) // the found set is the bitmap the call itself clears
+		b.SetValue(3, 4)
+		v, ok := b.GetValue(3)
+		return expect("ClearValues(own existence bitmap); SetValue(3,4)", fmt.Sprint(ok, v, b.GetCardinality()), "true 4 1")
+	})
 	add("BitSliceIndexing.BSI TransposeWithCounts (2 workers)", b2, func() (string, string) {
 		b := mk32()
 		b.SetValue(4, 5)
